@@ -6,6 +6,7 @@ import time
 
 from .errors import AnalysisError
 
+T_START = time.time()
 VERIF = os.path.dirname(os.path.dirname(os.path.abspath(__file__)))
 KNOWN_FILE = os.path.join(VERIF, "KNOWN_FINDINGS.txt")
 EVIDENCE_DIR = os.environ.get("VERIF_EVIDENCE_DIR") or os.path.join(VERIF, "evidence")
@@ -56,7 +57,7 @@ class Ctx:
         self.assumptions = []
         self.informational = {}
         self._cur = None
-        self.t0 = time.time()
+        self.t0 = T_START
 
     @property
     def thorough(self):
